@@ -23,10 +23,10 @@ RULE = ("Bounded-exhaustive: every literal content of <=3 (quick) / <=5 (thoroug
         "or the tail is not ' .'; distinct by statement text.")
 ASSUMPTIONS = ["generator builds valid N-Triples by construction; rdflib 6.0.2 NT parser cross-checks a sample of the enumeration "
                "and every Hypothesis case", "non-termination is detected by a 5 s alarm and confirmed by a line-event bound"]
-BUDGET = {"quick": {"examples": 16000, "wall": 240}, "thorough": {"examples": 1000000, "wall": 5400}}
+BUDGET = {"quick": {"examples": 16000, "wall": 240}, "thorough": {"examples": 400000, "wall": 900}}
 EXHAUSTIVE = {"quick": True, "thorough": True}
 # coverage-guided supplement (vf/fuzz.py): libFuzzer runs per shard, 16 shards
-FUZZ = {"quick": {"runs": 6000, "wall": 120}, "thorough": {"runs": 150000, "wall": 3000}}
+FUZZ = {"quick": {"runs": 6000, "wall": 120}, "thorough": {"runs": 60000, "wall": 600}}
 FLOORS = {"nontrivial": 0.5}
 
 from vf.sut import shexer  # noqa
